@@ -1,4 +1,5 @@
 import DigModel.Proofs.ApiLemmas
+import DigModel.Proofs.RootCauseProgram
 /-
   C13 — Errors are transparent and classifiable.
 
@@ -15,6 +16,17 @@ import DigModel.Proofs.ApiLemmas
   * `C13_ctor_*`, `C13_deco_*`: what a failing constructor / decorator hands to its caller (with and
     without RecoverFromPanics);
   * `C13_wrap_*`: every wrapper the resolver adds leaves RootCause, errors.Is and IsCycleDetected unchanged.
+  * **whole programs** (`C13_transparent`, from `engine_root`: an induction over the six resolver functions with the
+    log-extension predicate `Good`, valid from *any* state, then through Invoke, every other operation — whose
+    errors come from the parsers and validators only, `ParsePure` — and every history): for every operation,
+      - verdict `ok`: no constructor or decorator execution among its events failed;
+      - verdict `err e` with `RootCause e` = the error of execution `x` of `f`: that execution is among the events,
+        it is the *only* failing execution there, only callback events follow it, and the script says it fails;
+        the same with RecoverFromPanics for `PanicError`; otherwise the root cause is dig's own and nothing failed;
+      - a panic that propagates is that of the only failing execution, and RecoverFromPanics is off.
+    `C13_nothing_swallowed` is the converse reading (`Reported`): every failing constructor/decorator execution
+    among the events of an operation is *the* failure the operation reports, and there is no second one.
+    `C13_resolver_errors` : the resolution stage itself only ever fails with "missing type" or "cycle".
   That the real library builds exactly these chains is the K-error correspondence (chains of `%T`s,
   RootCause, errors.Is, IsCycleDetected, CanVisualizeError compared on every explored program).
 -/
@@ -124,6 +136,33 @@ theorem C13_deco_outcome (ctx : Ctx) (hnd : ctx.cfg.dry = false) (d : Nat) (node
 /-- non-vacuity (test): a user error four wrappers deep -/
 example : rootCause (argsFailed (paramSingle ⟨10, "", ""⟩ 3 (argsFailed (paramGroup ⟨11, "", "g"⟩ 2 (ctorFailed (user 7 1)))))) = user 7 1 := rfl
 
+theorem C13_transparent (p : Program) : ∀ r ∈ (runProgram p).2, InvGood p.ctx r.ev r.v := program_invGood p
+
+theorem C13_nothing_swallowed (p : Program) : ∀ r ∈ (runProgram p).2, r.v ≠ .panicDig → r.v ≠ .fuel → Reported p.ctx r :=
+  runOps_reported p.ctx p.fns p.ops
+
+theorem C13_resolver_errors (ctx : Ctx) (fn : Fn) (params : List Param) (s : Nat) (info : Bool) (w : St) (e : DErr)
+    (h : (invokeRun ctx fn params s info w).2.v = .err e) :
+    EngRoot e ∨ ∃ f x, (e.rootCause = .user f x ∧ (ctx.beh f x).k = .err) ∨ (e.rootCause = .panicErr f x ∧ (ctx.beh f x).k = .panic) :=
+  invokeRun_engRoot ctx fn params s info w e h
+
+/-- non-vacuity (a *test*, run by the evaluator at build time, not a theorem): a constructor scripted to fail is provided
+    and demanded; the Invoke's verdict has that execution's error as root cause and its events hold the failing exit -/
+def demoTypes : List TypeInfo :=
+  [{ id := 0, kind := .iface, elem := none, impl := [], isErr := true }, { id := 10, kind := .ptr, elem := none, impl := [], isErr := false }]
+def demoProgram : Program :=
+  { cfg := {}, types := demoTypes,
+    fns := [{ id := 1, name := "c", nonfunc := none, ins := [], variadic := false, outs := [.univ 10, .univ 0] },
+            { id := 2, name := "i", nonfunc := none, ins := [.univ 10], variadic := false, outs := [] }],
+    script := [(1, [{ k := .err }])], ops := [.provide 0 1 {}, .invoke 0 2 false], sameIds := true }
+#guard ((runProgram demoProgram).2.map fun r =>
+    match r.v with
+    | .err e => (match e.rootCause with | .user f x => f == 1 && x == 0 | _ => false) && r.ev.any Event.isFail
+    | _ => false) == [false, true]
+
+#print axioms C13_transparent
+#print axioms C13_nothing_swallowed
+#print axioms C13_resolver_errors
 #print axioms C13_root_is_leaf
 #print axioms C13_errorsIs_root
 #print axioms C13_user_identity
